@@ -25,5 +25,17 @@ for w in "$B"/run-*; do
   # testica aborts in the pinned build as well (pre-existing; not among the 62 baseline names)
   if [ "$s" != 0 ] && [ "$n" != testica ]; then rc=1; fi
 done
+# every pinned baseline name must be among the OK lines
+if [ -f /root/.vp/BASELINE.json ]; then
+  cat "$B"/run-*/out.txt > "$B/all.txt"
+  python3 - "$B/all.txt" <<'PY' || rc=1
+import json, re, sys
+names = json.load(open('/root/.vp/BASELINE.json'))['stable_pass']
+oks = [re.sub(r'\s*:\s*OK.*$', '', l).strip() for l in open(sys.argv[1], errors='replace') if ': OK' in l]
+missing = [n for n in names if n.strip() not in oks]
+print('BASELINE names expected=%d found=%d missing=%s' % (len(names), len(names) - len(missing), missing))
+sys.exit(1 if missing else 0)
+PY
+fi
 echo "BASELINE ok_lines=$nok status=$rc"
 exit $rc
